@@ -3,6 +3,7 @@ package main
 import (
 	"context"
 	"fmt"
+	"strings"
 	"time"
 
 	goat "github.com/avos-io/goat"
@@ -103,6 +104,113 @@ func c19HttpStale(r *Run) {
 		_ = fresh
 		r.Eval(fmt.Sprintf("%s/%v/%d", scenario, ops, i), true)
 		r.Count(scenario)
+		node.Close()
+		hooks.Reset(false)
+	}
+}
+
+// c19HttpTable: random sequences over the connection table of one GoatOverHttp — NewConnection(address),
+// "every connection idles out" (fake clock), a failing Write on any connection object ever created,
+// a Read on any of them — compared op by op with the Lean model Goat/HttpTable.lean (`httptable`):
+// which object NewConnection returns, that a failing Write returns an error (never panics), and
+// whether a Read fails at once ("closed") or waits ("pending").
+func c19HttpTable(r *Run) {
+	rng := r.Rand("c19.httptable")
+	n := r.Scale(40, 1500)
+	for i := 0; i < n && r.NumViolations() <= 4; i++ {
+		hooks.Reset(true)
+		interval := time.Second
+		clk := clockwork.NewFakeClock()
+		node := c19NewNode(c19IdentityMapper, goat.WithClock(clk), goat.WithConnectionCleanupInterval(interval), goat.WithConnectionTimeout(2*interval))
+		if !within(hangTimeout, func() { clk.BlockUntil(1) }) {
+			r.Violate("http.table", "schedule", "the cleaner never created its ticker", i, nil, nil)
+			node.Close()
+			hooks.Reset(false)
+			return
+		}
+		fc := &c19Clock{clk: clk, interval: interval}
+		var objs []goat.RpcReadWriter
+		var items, outs []string
+		done, cancelDone := context.WithCancel(context.Background())
+		cancelDone()
+		length := 2 + rng.Intn(r.Scale(8, 14))
+		ok := true
+		for k := 0; k < length && ok; k++ {
+			op := rng.Intn(10)
+			if len(objs) == 0 {
+				op = 0
+			}
+			switch {
+			case op < 3:
+				a := 1 + rng.Intn(2)
+				item := fmt.Sprintf("N%d", a)
+				r.Progress("http.table", strings.Join(append(items, item), " "))
+				c := node.goh.NewConnection(fmt.Sprintf("127.0.0.1:%d", a))
+				idx := -1
+				for j, o := range objs {
+					if o == c {
+						idx = j
+					}
+				}
+				if idx < 0 {
+					objs = append(objs, c)
+					idx = len(objs) - 1
+				}
+				items, outs = append(items, item), append(outs, fmt.Sprintf("obj%d", idx))
+			case op < 5:
+				r.Progress("http.table", strings.Join(append(items, "T"), " "))
+				// three ticks: every connection's last activity is now older than the timeout
+				for t := 0; t < 3 && ok; t++ {
+					ok = fc.tick()
+				}
+				if !ok {
+					r.Violate("http.table", "schedule", "the cleaner did not run on a tick", strings.Join(items, " "), nil, nil)
+					break
+				}
+				items, outs = append(items, "T"), append(outs, "ok")
+			case op < 8:
+				j := rng.Intn(len(objs))
+				item := fmt.Sprintf("W%d", j)
+				r.Progress("http.table", strings.Join(append(items, item), " "))
+				var err error
+				var pan any
+				ret := within(hangTimeout, func() {
+					defer func() { pan = recover() }()
+					err = objs[j].Write(done, &Rpc{Id: 1, Header: &goatorepo.RequestHeader{Method: "/svc/m", Source: "me", Destination: "x"}})
+				})
+				out := "err"
+				switch {
+				case pan != nil:
+					out = "panic"
+					r.Violate("http.table.crash", "ops", "a Write on an HTTP connection object panicked", strings.Join(append(items, item), " "), fmt.Sprint(pan), "an error")
+					ok = false
+				case !ret:
+					out = "hang"
+					r.Violate("http.table.hang", "ops", "a Write with a finished context did not return", strings.Join(append(items, item), " "), goroutineDump(), nil)
+					ok = false
+				case err == nil:
+					out = "nil"
+				}
+				items, outs = append(items, item), append(outs, out)
+			default:
+				j := rng.Intn(len(objs))
+				item := fmt.Sprintf("R%d", j)
+				r.Progress("http.table", strings.Join(append(items, item), " "))
+				ctx, c := context.WithTimeout(context.Background(), 5*time.Millisecond)
+				_, err := objs[j].Read(ctx)
+				c()
+				out := "pending"
+				if err != context.DeadlineExceeded {
+					out = "closed"
+				}
+				items, outs = append(items, item), append(outs, out)
+			}
+		}
+		if ok {
+			r.Case("httptable", strings.Join(items, " "), strings.Join(outs, " "))
+			r.Eval("http.table/"+strings.Join(items, " "), true)
+			r.Count(fmt.Sprintf("http.table.len%02d", len(items)))
+		}
 		node.Close()
 		hooks.Reset(false)
 	}
